@@ -27,13 +27,23 @@ type KidB struct {
 func (k *KidB) KidVal() string { return fmt.Sprintf("KidB(v=%s,w=%d)", k.V, k.W) }
 
 // ProbeAppender has one attribute of every injectable kind and one element of every shape.
-type ProbeAppender struct {
+//
+// Some of them sit in an embedded, package-private base struct, the way applications share
+// fields between their own plugins (the built-in plugins embed exported bases only): a tagged
+// exported field is configured wherever it is declared.
+type probeCommon struct {
 	log.AppenderBase
-	Str  string               `PluginAttribute:"str"`
-	StrD string               `PluginAttribute:"strDef,default=dflt"`
+	Str  string     `PluginAttribute:"str"`
+	StrD string     `PluginAttribute:"strDef,default=dflt"`
+	I16  int16      `PluginAttribute:"i16,default=16"`
+	Lay  log.Layout `PluginElement:"Layout,default=TextLayout"`
+	Opt  Kid        `PluginElement:"KidOpt?"`
+}
+
+type ProbeAppender struct {
+	probeCommon
 	B    bool                 `PluginAttribute:"flagOn,default=true"`
 	I8   int8                 `PluginAttribute:"i8,default=-8"`
-	I16  int16                `PluginAttribute:"i16,default=16"`
 	I32  int32                `PluginAttribute:"i32Val,default=32"`
 	I64  int64                `PluginAttribute:"i64,default=-64"`
 	I    int                  `PluginAttribute:"plainInt,default=5"`
@@ -47,9 +57,7 @@ type ProbeAppender struct {
 	Lvl  log.LevelRange       `PluginAttribute:"lvl,default=INFO~ERROR"`
 	Rot  log.TimeRotation     `PluginAttribute:"rot,default=h"`
 	Pol  log.BufferFullPolicy `PluginAttribute:"fullPolicy,default=Discard"`
-	Lay  log.Layout           `PluginElement:"Layout,default=TextLayout"`
 	Req  Kid                  `PluginElement:"Kid"`
-	Opt  Kid                  `PluginElement:"KidOpt?"`
 	List []Kid                `PluginElement:"KidList"`
 	Def  []Kid                `PluginElement:"KidDef,default=KidA;KidA"`
 
